@@ -20,6 +20,7 @@ import (
 	"github.com/cosmos/cosmos-sdk/server"
 	authtypes "github.com/cosmos/cosmos-sdk/x/auth/types"
 	"github.com/ethereum/go-ethereum/common"
+	ethtypes "github.com/ethereum/go-ethereum/core/types"
 	"github.com/stretchr/testify/require"
 
 	rpcbackend "github.com/EscanBE/evermint/v12/rpc/backend"
@@ -33,7 +34,7 @@ type blk struct {
 	block     *cmttypes.Block
 	hash      []byte
 	res       *abci.ResponseFinalizeBlock
-	ethHashes []common.Hash // hashes of every decodable single-MsgEthereumTx tx, in block order (whatever its outcome)
+	ethHashes []common.Hash // hashes of every decodable single-MsgEthereumTx tx with a decodable payload, in block order (whatever its outcome)
 }
 
 type world struct {
@@ -73,13 +74,25 @@ func (w *world) appendBlock(height int64, txs [][]byte, res *abci.ResponseFinali
 		}
 		if msgs := tx.GetMsgs(); len(msgs) == 1 {
 			if m, ok := msgs[0].(*evmtypes.MsgEthereumTx); ok {
-				out.ethHashes = append(out.ethHashes, m.AsTransaction().Hash())
+				if etx := payloadOf(m); etx != nil {
+					out.ethHashes = append(out.ethHashes, etx.Hash())
+				}
 			}
 		}
 	}
 	require.Equal(w.t, int64(len(w.blocks)+1), height)
 	w.blocks = append(w.blocks, out)
 	return out
+}
+
+// payloadOf decodes the embedded Ethereum transaction the way MsgEthereumTx.AsTransaction does, without its panic:
+// nil = the payload is not a decodable Ethereum transaction.
+func payloadOf(m *evmtypes.MsgEthereumTx) *ethtypes.Transaction {
+	etx := &ethtypes.Transaction{}
+	if err := etx.UnmarshalBinary(m.MarshalledTx); err != nil {
+		return nil
+	}
+	return etx
 }
 
 // runBlock executes the txs as one block on the real app and records block + results.
